@@ -654,12 +654,6 @@ fn judge(
     };
     let auth_reply = class_at(auth_pos);
     let nego_reply = class_at(nego_pos);
-    let first_line_class = match lines.first() {
-        Some(l) if *l == b"\n" => "bare-lf-empty-line",
-        Some(l) if !l.ends_with(CRLF) => "bare-lf-line",
-        Some(_) => "crlf-line",
-        None => "none",
-    };
 
     // Each clause carries only the features that bear on it (the rest is in the detail text).
     let f_accept = |v: Violation| {
@@ -696,7 +690,6 @@ fn judge(
         } else {
             "crlf-lines-only"
         };
-        let _ = first_line_class;
         vs.push(
             Violation::new(CL_PANIC, ctx(&format!("the client panicked: {p}")), replay.clone())
                 .feat("provoked_by", site)
